@@ -167,7 +167,6 @@ package plumbing
 //gvc:func (*ObjectID).ResetBySize
 //gvc:  props C12
 //gvc:  theory int
-//gvc:  requires nn: s != nil
 //gvc:  modifies s.format, s.hash
 //gvc:  ensures fmt: (idSize == 32) == bytes_eq(s.format, "sha256")
 //gvc:  ensures unset: idSize != 32 ==> len(s.format) == 0
